@@ -164,8 +164,9 @@ def _group_integrands_by_quadrature_rule(
         tensor_factors = None
         rules = {}
         if scheme == "custom":
-            points = np.asarray(md["quadrature_points"])
-            weights = np.asarray(md["quadrature_weights"])
+            # (in double precision: the numbers are printed into the kernel)
+            points = np.asarray(md["quadrature_points"], dtype=np.float64)
+            weights = np.asarray(md["quadrature_weights"], dtype=np.float64)
             if points.ndim != 2 or weights.ndim != 1 or points.shape[0] != weights.shape[0]:
                 raise ValueError(
                     "Custom quadrature rule: expected points of shape (num_points, dim) and "
